@@ -460,6 +460,16 @@ def globalRef (T : Tab) (pkg : String) (x : String) : Option FnRef :=
   else if T.isBuiltin x then some (.builtin x)
   else none
 
+/-- `b` as a member of the trait or type named `q` (`typer/check.rs::infer_type_member_expr`): a method of
+    trait `q` first; a trait `q` WITHOUT a method `b` falls through to the type of the same name (a trait and a
+    struct may share their name: `trait Foo`, `struct Foo`, `Foo::inherent_method(x)`) -/
+def traitOrTypeMember (T : Tab) (q b : String) : Option FnRef :=
+  let viaType : Option FnRef :=
+    if (T.findEnum q).isSome || (T.findStruct q).isSome then some (.inherent q b) else none
+  match T.findTrait q with
+  | some d => if (d.sigs.map (·.1)).contains b then some (.traitM q b) else viaType
+  | none => viaType
+
 /-- `A::b` / `P::A::b` that is not a constructor: a function of package `A`, a method of trait `A`,
     an inherent method of type `A` (`typer/check.rs::infer_type_member_expr`: trait first) -/
 def memberRef (T : Tab) (pkg : String) : List String → Option FnRef
@@ -467,17 +477,8 @@ def memberRef (T : Tab) (pkg : String) : List String → Option FnRef
     if T.packages.contains a && (T.findFn (qual a b)).isSome then some (.top (qual a b))
     else if T.packages.contains a && (T.externs.find? (·.1 == qual a b)).isSome then some (.extern (qual a b))
     else if a == "Builtin" && T.isBuiltin b then some (.builtin b)
-    else match T.findTrait (qual pkg a) with
-      | some d => if (d.sigs.map (·.1)).contains b then some (.traitM (qual pkg a) b) else none
-      | none =>
-        if (T.findEnum (qual pkg a)).isSome || (T.findStruct (qual pkg a)).isSome then some (.inherent (qual pkg a) b)
-        else none
-  | [p, a, b] =>
-    match T.findTrait (qual p a) with
-    | some d => if (d.sigs.map (·.1)).contains b then some (.traitM (qual p a) b) else none
-    | none =>
-      if (T.findEnum (qual p a)).isSome || (T.findStruct (qual p a)).isSome then some (.inherent (qual p a) b)
-      else none
+    else traitOrTypeMember T (qual pkg a) b
+  | [p, a, b] => traitOrTypeMember T (qual p a) b
   | _ => none
 
 /-- meaning of a path in expression position.  Constructors come first
